@@ -3,6 +3,7 @@ package main
 // C17 OLVM transactions keep one ledger and charge exactly the gas used: structural necessary conditions.
 
 import (
+	"fmt"
 	"go/token"
 	"go/types"
 	"strings"
@@ -334,37 +335,8 @@ func runC17(r *Run) {
 		})
 		r.Check(okG, "C17.ledger", name, "a loaded account takes its balance from the balance store", "ea.Coins = balance store value", "a loaded account keeps whatever balance was serialised instead of the balance store's: native transfers are invisible to the EVM", p.pos(fn.Pos()))
 	}
-	ra := p.MustFn("(*data/balance.NesterAccountKeeper).RemoveAccount")
-	rsb := firstCallIn(ra, "(*data/balance.Store).SetBalance")
-	okRA := rsb != nil && strings.HasSuffix(pathOf(rsb.Call.Args[1]).FieldString(), "Address")
-	if okRA {
-		okRA = derivesFrom(rsb.Call.Args[2], func(y ssa.Value) bool {
-			c, ok := y.(*ssa.Call)
-			if !ok || calleeName(c) != "(data/balance.Currency).NewCoinFromInt" {
-				return false
-			}
-			k, isK := intConst(c.Call.Args[1])
-			return isK && k == 0
-		})
-	}
-	// ... and it is the account's own (OLT) record only
-	allInstrs(ra, func(ins ssa.Instruction) {
-		c, ok := ins.(*ssa.Call)
-		if !ok || c == rsb {
-			return
-		}
-		if sc := c.Call.StaticCallee(); sc != nil && strings.HasPrefix(fname(sc), "(*data/balance.Store).") {
-			for _, a := range c.Call.Args {
-				if tname(a.Type()) == "data/balance.Coin" || tname(a.Type()) == "data/balance.Amount" {
-					okRA = false // another balance write
-				}
-			}
-		}
-	})
-	if okRA && rsb != nil {
-		okRA = derivesFrom(rsb.Call.Args[2], func(y ssa.Value) bool { return strings.HasSuffix(pathOf(y).FieldString(), "Coins.Currency") })
-	}
-	r.Check(okRA, "C17.ledger", fname(ra), "a removed account leaves no balance behind", "exactly one SetBalance(account.Address, zero of the account's own currency)", "RemoveAccount deletes the keeper record only, or zeroes records of other currencies as well (token balances of a touched empty account are wiped): a self-destructed contract keeps its balance on the native ledger although the beneficiary received it (value exists twice)", p.pos(ra.Pos()))
+	checkRemoveAccount(r, "C17.ledger")
+	checkIntrinsicGas(r, "C17.gas")
 
 	// ---- cache
 	ap := p.MustFn("(*vm.EVMTransaction).Apply")
@@ -477,4 +449,148 @@ func derefT(t types.Type) types.Type {
 		return pt.Elem()
 	}
 	return t
+}
+
+// isParamCopy: root is the local copy go/ssa makes of a by-value parameter whose address is taken.
+func isParamCopy(root ssa.Value, prm *ssa.Parameter) bool {
+	al, ok := root.(*ssa.Alloc)
+	if !ok || al.Referrers() == nil {
+		return false
+	}
+	for _, r := range *al.Referrers() {
+		if st, isS := r.(*ssa.Store); isS && st.Addr == ssa.Value(al) && st.Val == ssa.Value(prm) {
+			return true
+		}
+	}
+	return false
+}
+
+// checkRemoveAccount: removing an EVM account clears its record in the balance store (also a clause of C16: after a
+// SELFDESTRUCT the dead contract's balance is zero on the native ledger as it is in go-ethereum's state).
+func checkRemoveAccount(r *Run, rule string) {
+	p := r.P
+	ra := p.MustFn("(*data/balance.NesterAccountKeeper).RemoveAccount")
+	rsb := firstCallIn(ra, "(*data/balance.Store).SetBalance")
+	okRA := rsb != nil && strings.HasSuffix(pathOf(rsb.Call.Args[1]).FieldString(), "Address")
+	if okRA {
+		okRA = derivesFrom(rsb.Call.Args[2], func(y ssa.Value) bool {
+			c, ok := y.(*ssa.Call)
+			if !ok || calleeName(c) != "(data/balance.Currency).NewCoinFromInt" {
+				return false
+			}
+			k, isK := intConst(c.Call.Args[1])
+			return isK && k == 0
+		})
+	}
+	// ... and it is the account's own (OLT) record only
+	allInstrs(ra, func(ins ssa.Instruction) {
+		c, ok := ins.(*ssa.Call)
+		if !ok || c == rsb {
+			return
+		}
+		if sc := c.Call.StaticCallee(); sc != nil && strings.HasPrefix(fname(sc), "(*data/balance.Store).") {
+			for _, a := range c.Call.Args {
+				if tname(a.Type()) == "data/balance.Coin" || tname(a.Type()) == "data/balance.Amount" {
+					okRA = false // another balance write
+				}
+			}
+		}
+	})
+	if okRA && rsb != nil {
+		okRA = derivesFrom(rsb.Call.Args[2], func(y ssa.Value) bool { return strings.HasSuffix(pathOf(y).FieldString(), "Coins.Currency") })
+	}
+	r.Check(okRA, rule, fname(ra), "a removed account leaves no balance behind", "exactly one SetBalance(account.Address, zero of the account's own currency)", "RemoveAccount deletes the keeper record only, or zeroes records of other currencies as well (token balances of a touched empty account are wiped): a self-destructed contract keeps its balance on the native ledger although the beneficiary received it (value exists twice)", p.pos(ra.Pos()))
+
+	// ... whatever amount the in-memory copy holds: the copy may have been zeroed by Suicide in the same transaction while
+	// the balance record still has the committed amount, so only a pointer (nil) test may stand in front of the write
+	if rsb != nil {
+		bad := ""
+		for _, pol := range []int{+1, -1} {
+			pol := pol
+			var at string
+			edges := condEdges(ra, func(cond ssa.Value, iff *ssa.If) int {
+				if nilCond(cond, func(ssa.Value) bool { return true }) != 0 {
+					return 0 // pointer test
+				}
+				if derivesFrom(cond, func(y ssa.Value) bool {
+					pa := pathOf(y)
+					return len(ra.Params) > 1 && (pa.Root == ssa.Value(ra.Params[1]) || isParamCopy(pa.Root, ra.Params[1])) && strings.Contains(pa.FieldString(), "Coins")
+				}) {
+					at = p.ipos(iff)
+					return pol
+				}
+				return 0
+			})
+			if len(edges) > 0 && !reachWithout(ra, edges)[rsb.Block()] {
+				bad = at
+			}
+		}
+		r.Check(bad == "", rule, fname(ra), "the balance record is cleared whatever the in-memory amount is", "SetBalance(zero) is reachable on both outcomes of every test of account.Coins' value",
+			"the clearing write depends on the amount of the in-memory copy (test at "+bad+"): after Suicide zeroed the copy, the balance record keeps the committed amount and the dead contract's value exists twice", bad)
+	}
+
+}
+
+// checkIntrinsicGas: the intrinsic gas is a sum of products count x price; each count is multiplied by its own price
+// constant (argument-selection rule, the prices are go-ethereum's protocol parameters): the number of access-list entries
+// by TxAccessListAddressGas, the number of storage keys by TxAccessListStorageKeyGas, the zero bytes (len(data) - nz) by
+// TxDataZeroGas, the non-zero bytes by TxDataNonZeroGasEIP2028; the base is the creation price exactly on the creation edge.
+func checkIntrinsicGas(r *Run, rule string) {
+	p := r.P
+	fn := p.MustFn("vm.IntrinsicGas")
+	const params = "github.com/ethereum/go-ethereum/params"
+	price := map[string]int64{}
+	for _, n := range []string{"TxAccessListAddressGas", "TxAccessListStorageKeyGas", "TxDataZeroGas", "TxDataNonZeroGasEIP2028"} {
+		price[n] = constValue(p, params, n)
+	}
+	isLenOf := func(i int) func(ssa.Value) bool {
+		return func(y ssa.Value) bool {
+			c, ok := y.(*ssa.Call)
+			if !ok {
+				return false
+			}
+			if b, isB := c.Call.Value.(*ssa.Builtin); !isB || b.Name() != "len" {
+				return false
+			}
+			return i < len(fn.Params) && derivesFrom(c.Call.Args[0], func(z ssa.Value) bool { return z == ssa.Value(fn.Params[i]) })
+		}
+	}
+	isKeys := func(y ssa.Value) bool {
+		c, ok := y.(*ssa.Call)
+		return ok && strings.HasSuffix(calleeName(c), "AccessList).StorageKeys")
+	}
+	isSub := func(y ssa.Value) bool { bo, ok := y.(*ssa.BinOp); return ok && bo.Op == token.SUB }
+	seen := map[string]bool{}
+	allInstrs(fn, func(ins ssa.Instruction) {
+		bo, ok := ins.(*ssa.BinOp)
+		if !ok || bo.Op != token.MUL {
+			return
+		}
+		x, kv := bo.X, bo.Y
+		k, isK := intConst(kv)
+		if !isK {
+			x, kv = bo.Y, bo.X
+			k, isK = intConst(kv)
+		}
+		if !isK {
+			return
+		}
+		var want string
+		switch {
+		case derivesFrom(x, isKeys):
+			want = "TxAccessListStorageKeyGas"
+		case derivesFrom(x, isLenOf(1)):
+			want = "TxAccessListAddressGas"
+		case derivesFrom(x, isSub):
+			want = "TxDataZeroGas"
+		default:
+			want = "TxDataNonZeroGasEIP2028"
+		}
+		seen[want] = true
+		r.Check(k == price[want], rule, fname(fn), "the count priced with "+want+" is multiplied by that constant", "count x its own price",
+			fmt.Sprintf("a count that go-ethereum prices with %s (%d) is multiplied by %d: gas used, and with it the sender's debit and the fee, differ from the reference for transactions where the counts differ", want, price[want], k), p.ipos(bo))
+	})
+	if len(seen) < 4 {
+		r.Viol(rule, fname(fn), "four priced counts", fmt.Sprintf("only %d of the four count x price products were found (access-list addresses, storage keys, zero bytes, non-zero bytes)", len(seen)), p.pos(fn.Pos()), nil)
+	}
 }
